@@ -13,7 +13,7 @@ ORACLE = O.c05
 def body_factory(tier, seed):
     def body(rep, support_ok):
         g = GD.Gen(tier, seed)
-        cases = base.corpus() + g.all_cases() + g.stratum_kinds()
+        cases = base.corpus() + g.stratum_cross_version() + g.all_cases() + g.stratum_kinds() + g.stratum_required_sequences()
         extra = EXTRA(g, tier) if EXTRA else []
         cases = cases + extra
         modes = (False, True) if tier == "thorough" else (False,)
@@ -35,6 +35,8 @@ def body_factory(tier, seed):
         # what is accepted must not depend on what the process validated first)
         from harness.props import c04
         c04.cold_orders(rep, PROP)
+        from harness import verdict as V
+        V.cold_cross_versions(rep, PROP)
         # the outbound half (call()): histories on a real endpoint under the virtual clock
         from harness import gen_history as GH
         hs = GH.HGen(tier, seed).all()[: (30 if tier == "quick" else 300)]
@@ -45,7 +47,7 @@ def body_factory(tier, seed):
 
 
 EXTRA = None
-KINDS = ("ok", "explicit", "bad-req", "bad-res", "raise-", "corpus-D4", "malformed-5th")
+KINDS = ("cross", "ok", "explicit", "bad-req", "bad-res", "raise-", "corpus-D4", "malformed-5th")
 
 
 def run(rep, tier, seed):
